@@ -13,6 +13,7 @@ from ..prng import sub
 from .c01 import draw_fmt, fmt_tag
 
 ID = "C05"
+PROBES = ['probe_sessions', 'category_sets_compared', 'sites_judged']  # reach probes: counters that must be non-zero in a run (a zero is printed and recorded)
 LEVEL = "exploration"
 BUDGET = {"quick": 1200, "thorough": 60000}
 WALL = {"quick": 240, "thorough": 3000}
